@@ -87,6 +87,15 @@ type meta struct {
 	Module []*Module `yang:"module"`
 }
 
+// metaFields are the yang tag names of the fields of a Node that are not
+// populated from a substatement, and thus are not YANG keywords.
+var metaFields = map[string]bool{
+	"Name":      true,
+	"Statement": true,
+	"Parent":    true,
+	"Ext":       true,
+}
+
 // aliases is a map of "aliased" names, that is, two types of statements
 // that parse (nearly) the same.
 // NOTE: This only works for root-level aliasing for now, which is good enough
@@ -132,6 +141,9 @@ func build(stmt *Statement, parent reflect.Value, types *typeDictionary) (v refl
 		keyword = k
 	}
 	t := nameMap[keyword]
+	if t == nil {
+		return nilValue, fmt.Errorf("%s: unknown statement: %s", stmt.Location(), stmt.Keyword)
+	}
 	y := typeMap[t]
 	// Keep track of which substatements are present in the statement.
 	found := map[string]bool{}
@@ -172,6 +184,11 @@ func build(stmt *Statement, parent reflect.Value, types *typeDictionary) (v refl
 	for _, ss := range stmt.statements {
 		found[ss.Keyword] = true
 		fn := y.funcs[ss.Keyword]
+		if metaFields[ss.Keyword] {
+			// Name, Statement and Parent are filled in from stmt
+			// above, they are never valid substatements.
+			fn = nil
+		}
 		switch {
 		case fn != nil:
 			// Normal case, the keyword is known.
